@@ -42,6 +42,10 @@ def scenarios(tier):
         out.append({'name': f'two coordinates on distinct dimensions,positive_down={p},deep_to_shallow={o}',
                     'fn': 'scn_two_distinct', 'kwargs': {'p': p, 'o': o}})
     out.append({'name': 'multidimensional depth variable is refused', 'fn': 'scn_multidim', 'kwargs': {}})
+    for n in (2, 3, 4, 5):
+        for p in (True, False):
+            out.append({'name': f'no positive attribute, {n} levels of any signs: the guess is "down" iff more than half of the values are positive[positive_down={p}]',
+                        'fn': 'scn_guess', 'kwargs': {'n': n, 'p': p}})
     for conv_name in ('CFGrid1D', 'ShocStandard', 'UGrid'):
         for p, o in ((True, None), (False, True), (None, False)):
             out.append({'name': f'dataset.ems.normalize_depth_variables hands every depth coordinate and both options to the operation[{conv_name}, positive_down={p}, deep_to_shallow={o}]',
@@ -378,3 +382,43 @@ def scn_entry(c, conv_name, p, o):
             sorted(str(getattr(g, 'name', g)) for g in given) == want, note=repr([getattr(g, 'name', g) for g in given]))
     c.check('positive_down and deep_to_shallow are handed over as given', calls[0].get('positive_down') is p and calls[0].get('deep_to_shallow') is o)
     c.check('the result of the operation is returned as it is', isinstance(r, OpaqueValue))
+
+
+def scn_guess(c, n, p):
+    """A depth coordinate without a `positive` attribute and with levels of ANY signs (n levels, strictly monotonic): the documented guess
+    is positive-down iff MORE THAN HALF of the values are greater than zero.  With positive_down given, the values are negated exactly when
+    the guess differs from the request, the attribute is set, and a warning names the guess."""
+    it = new_interp()
+    zs = [c.fresh_real(f'z{k}') for k in range(n)]
+    inc = c.fresh_bool('increasing')
+    for a, b in zip(zs, zs[1:]):
+        c.assume(z3.If(inc.z, zreal(a) < zreal(b), zreal(a) > zreal(b)))
+    ds = XDataset(attrs={})
+    add_var(ds, 'zc', ('k',), NDArray((n,), lambda i: SFloat(FIN, _pick_real(zs, i[0])), FLOAT64), {'axis': 'Z'}, {}, coord=True)
+    nx = sym_size(c, 'nx', 0)
+    add_var(ds, 'temp', ('k', 'x'), sym_array(c, 'temp', (n, nx), 'V'))
+    f = fn(it, 'emsarray.operations.depth', 'normalize_depth_variables')
+    out = expect_ok(c, 'normalize_depth_variables returns', lambda: call(it, f, ds, ['zc'], positive_down=p))
+    count = sum([z3.If(zreal(z) > 0, 1, 0) for z in zs])
+    guess_down = count * 2 > n
+    c.check('a missing positive attribute is guessed with a warning', any(e[0] == 'warning' for e in core.ctx().events))
+    zout = out._vars.get('zc')
+    c.check('the depth coordinate is still present, on its dimension', zout is not None and zout.dims == ('k',))
+    if zout is None:
+        raise PathEnd()
+    c.check('positive attribute is the requested one', zout.attrs.get('positive') == ('down' if p else 'up'))
+    negate = z3.Xor(guess_down, z3.BoolVal(bool(p)))
+    for k in range(n):
+        got = zout.arr.fn((k,))
+        want = z3.If(negate, -zreal(zs[k]), zreal(zs[k]))
+        c.check(f'level {k}: negated exactly when the guess (more than half of the values positive = down) differs from the request',
+                mk_bool(z3.And(zreal(got.val) == want)) if hasattr(got, 'val') else False)
+
+
+def _pick_real(zs, k):
+    if isinstance(k, int):
+        return zs[k]
+    e = zreal(zs[-1])
+    for j in range(len(zs) - 2, -1, -1):
+        e = z3.If(zint(k) == j, zreal(zs[j]), e)
+    return mk_real(e)
